@@ -771,7 +771,14 @@ func propC17(p *Prog, r *Report) {
 		ok := false
 		visit := func(x ast.Node) bool {
 			if c, isC := x.(*ast.CallExpr); isC && p.callIs(fi.Pkg, c, kDirAdd) && len(c.Args) == 2 {
-				if pc, isP := ast.Unparen(c.Args[1]).(*ast.CallExpr); isP && p.callIs(fi.Pkg, pc, "internal/model.ParseDir") && len(pc.Args) == 1 {
+				arg := ast.Unparen(c.Args[1])
+				// (the directory may be computed right after the look-up and kept in a local)
+				if o := objOf(info, arg); o != nil {
+					if def := singleDefIn(info, fi.Decl.Body, o); def != nil {
+						arg = ast.Unparen(def)
+					}
+				}
+				if pc, isP := arg.(*ast.CallExpr); isP && p.callIs(fi.Pkg, pc, "internal/model.ParseDir") && len(pc.Args) == 1 {
 					if sel, isS := ast.Unparen(pc.Args[0]).(*ast.SelectorExpr); isS && sel.Sel.Name == "Parent" {
 						ok = true
 					}
